@@ -287,8 +287,24 @@ fn eval_in_child<P: Prop>(case: &P::Case, tier: Tier, seed: u64, file: &Path) ->
         .arg(file)
         .env("VERIF_SEED", seed.to_string())
         .stdin(Stdio::null())
+        .stdout(Stdio::piped())
         .stderr(Stdio::null())
-        .output();
+        .spawn()
+        .and_then(|mut c| {
+            // a candidate that does not come back within 30 s is abandoned (treated as "does not fail")
+            let t0 = Instant::now();
+            loop {
+                if c.try_wait()?.is_some() {
+                    return c.wait_with_output();
+                }
+                if t0.elapsed() > Duration::from_secs(30) {
+                    let _ = c.kill();
+                    let _ = c.wait();
+                    return Err(std::io::Error::other("timeout"));
+                }
+                std::thread::sleep(Duration::from_millis(2));
+            }
+        });
     let _ = std::fs::remove_file(file);
     match child {
         Ok(o) if o.status.code() == Some(1) => {
@@ -726,6 +742,26 @@ pub fn drive<P: Prop>(args: &Args) -> i32 {
 }
 
 fn replay<P: Prop>(path: &Path) -> i32 {
+    // For the memory-safety properties the failure may be the death of the process: replay in a child first.
+    if P::signal_is_violation() && std::env::var_os("VERIF_REPLAY_CHILD").is_none() {
+        let child = Command::new(std::env::current_exe().expect("exe"))
+            .args(std::env::args().skip(1))
+            .env("VERIF_REPLAY_CHILD", "1")
+            .stdin(Stdio::null())
+            .stderr(Stdio::null())
+            .output();
+        if let Ok(o) = child {
+            use std::os::unix::process::ExitStatusExt;
+            print!("{}", String::from_utf8_lossy(&o.stdout));
+            if let Some(sig) = o.status.signal() {
+                println!("VIOLATION property={} replay={}", P::ID, path.display());
+                println!("  signature: worker-killed-by-signal-{sig}");
+                println!("  detail: replaying the case kills the process (signal {sig})");
+                return 1;
+            }
+            return o.status.code().unwrap_or(2);
+        }
+    }
     install_quiet_panic_hook();
     let text = match std::fs::read_to_string(path) {
         Ok(t) => t,
